@@ -1,8 +1,6 @@
-\* Project.tla, intended design (Dev = {}): every C19 / C18 / C17 property is checked by TLC.
-\* 3 resolver fields (Query.f1, Query.f2, T.g) x 2 schema files x 2 body tokens (b1 / b2c, written together
-\* with doc d1 + named results / template doc + unnamed) x 2 helper tokens x 2 import tokens x both resolver
-\* layouts x histories <= 6.
-\* Measured (4 workers): see notes/C19.md (header is updated from the measured run).
+\* Project.tla, INTENDED DESIGN (Dev = {}), thorough tier: as MC_Project.cfg plus edit records with a directive
+\* doc comment / without doc comment and a second initial schema (f1 and g already in a.graphqls); histories <= 6.
+\* Measured: 1 911 515 distinct / 7 020 334 generated states, depth 7, 5 min 40 s with 4 workers (loaded machine).
 INIT Init
 NEXT Next
 CONSTANTS
